@@ -617,8 +617,8 @@ def decide(cx, prop, tier, seed, t_start):
             try:
                 # keep what makes the transition an alarm: a model diff / hang, or a rejection outside the listed classes
                 # (shrinking towards a rejection that is a listed finding would lose the failure)
-                seq = shrink(cx, work, suite, seq, lambda x: x['model'] in ('DIFF', 'HANG', '?') or
-                             (x['f'].get(col, 'na').startswith('rej') and x['f'].get(clscol, '-') not in known_classes))
+                seq = shrink(cx, work, suite, seq, lambda x: (x['model'] == 'HANG' or spec['relevant'](x)) and (x['model'] in ('DIFF', 'HANG', '?') or
+                             (x['f'].get(col, 'na').startswith('rej') and x['f'].get(clscol, '-') not in known_classes)))
             except Exception as e:
                 notes.append('shrink failed: %s' % e)
         body = dict(property=prop, kind=kind, suite=suite, seq=seq, detail=extra,
